@@ -164,7 +164,7 @@ def step (st : St) (line : String) : St × String :=
       let c : Cfg := parseFlags fl { policy := p, maxRestarts := m, sdTimeout := t, sdSignal := sg, onSignal := onSignal }
       -- dependencies are resolved at `init` (names may be declared later): keep them encoded
       let st := { st with names := st.names ++ [name], cfgs := st.cfgs ++ [c],
-                          orc := PC.Spec.Trace.declare st.orc name pol mx fl onsig deps }
+                          orc := PC.Spec.Trace.declare st.orc name pol mx fl onsig deps t }
       (st, "ok ||| ok")
     | _, _, _, _ => (st, "bad-op")
   | ["deps", name, deps] =>
@@ -184,7 +184,11 @@ def step (st : St) (line : String) : St × String :=
   | ["s", "run", key] =>
     match (threadKeys st st.sys).idxOf? key with
     | some t => finish st (PC.Sup.step st.sys (.run t) (hintsOf st (obsField impl))) ws impl
-    | none => (st, "no-such-thread " ++ key)
+    | none =>
+      -- the model has no such thread (it has parted from the implementation): the oracle still judges
+      -- the implementation's own observations
+      let (orc, verdict) := PC.Spec.Trace.feed st.orc ws impl
+      ({ st with orc := orc }, "no-such-thread " ++ key ++ " ||| " ++ verdict)
   | ["s", "exit", n, c] =>
     match c.toInt? with
     | some c => finish st (PC.Sup.step st.sys (.exit (nameIdx st n) c) {}) ws impl
